@@ -68,7 +68,10 @@ def rejectedUnchanged (t : Tr) : Bool := t.ok || (sameState t.pre.st t.post.st &
 
 /-! ## C15 -/
 
-def nodupKeys {κ β : Type} [DecidableEq κ] (l : List (κ × β)) : Bool := (l.map (·.1)).eraseDups.length == l.length
+def nodupB {κ : Type} [DecidableEq κ] : List κ → Bool
+  | [] => true
+  | k :: r => !r.contains k && nodupB r
+def nodupKeys {κ β : Type} [DecidableEq κ] (l : List (κ × β)) : Bool := nodupB (l.map (·.1))
 
 /-- the registry invariant, evaluated on the raw dump of the three prefixes -/
 def regInvB (r : Registry) : Bool :=
